@@ -62,7 +62,12 @@ def run(ck, tier):
         vlib.log("  [random] %s" % p.stdout.strip())
         v2, segs2 = judge_trace(ck, tr2, "random-histories")
         ck.samples.append({"source": "random history", "events": segs2[0][1][:10]})
-        for _, s in segs2:
+        # the same usage histories with the concurrent constructor flag (background writers, buffer pool)
+        tr3 = os.path.join(work, "random-conc.ndjson")
+        p = vlib.harness(["morass", "random", "-n", n, "-big", "-conc", "-seed", ck.seed + 17, "-out", tr3])
+        vlib.log("  [random, concurrent mode] %s" % p.stdout.strip())
+        v3, segs3 = judge_trace(ck, tr3, "random-histories-concurrent")
+        for _, s in segs2 + segs3:
             ops = tuple((e["op"], e.get("v", 0) // KD, e.get("err", "")) for e in s)
             if sum(1 for o in ops if o[0] == "clear" or o[2] == "EOF") > 1 or any(
                     e.get("view", {}).get("nfiles", 0) > 0 for e in s):
